@@ -211,6 +211,37 @@ pub fn c08_maven_case(s: &str, acc: &mut Acc) {
     acc.sig(&("maven", has_segment));
 }
 
+/// maven without a namespace is refused whatever the name looks like (builder, and parser with the
+/// name fully percent-encoded and — where that is the same PURL — written raw).
+#[cfg(feature = "typed")]
+pub fn c08_maven_no_namespace(name: &str, acc: &mut Acc) {
+    acc.evals += 1;
+    let case = json!({"engine": "c08-maven-no-ns", "name": name});
+    let r = guarded(|| {
+        let spec = BuildSpec { ty: "maven".into(), name: name.to_owned(), ..Default::default() };
+        let mut g = Grab { got: None, err: None };
+        build_flavor("PackageType", &spec, acc, &mut g);
+        if let Some(x) = g.got {
+            acc.violate(Violation { prop: "C08", kind: "maven-accepted".into(), case: case.clone(), detail: format!("builder accepts maven without namespace, name {:?}: {:?}", name, x.0) });
+        }
+        let mut inputs = vec![format!("pkg:maven/{}", pct_all(name))];
+        if !name.contains(['/', '@', '?', '#', '%']) {
+            inputs.push(format!("pkg:maven/{name}"));
+        }
+        for input in inputs {
+            acc.calls += 1;
+            if let Ok(p) = <purl::PackageType as PFlavor>::parse(&input) {
+                acc.violate(Violation { prop: "C08", kind: "maven-accepted".into(), case: case.clone(), detail: format!("parser accepts {:?} (maven without namespace) as {:?}", input, observe(&p)) });
+            }
+        }
+        acc.nontrivial += 1;
+        acc.sig(&"maven-no-ns");
+    });
+    if let Err(msg) = r {
+        acc.violate(Violation { prop: "C06", kind: "panic".into(), case, detail: msg });
+    }
+}
+
 #[cfg(feature = "typed")]
 pub fn c08_sweep(tier: Tier) -> (Acc, Value) {
     let mut total = for_all_scalars(|c, acc| {
@@ -220,6 +251,8 @@ pub fn c08_sweep(tier: Tier) -> (Acc, Value) {
             c08_name_case(ty, &alone, acc);
             c08_name_case(ty, &mid, acc);
         }
+        c08_maven_no_namespace(&alone, acc);
+        c08_maven_no_namespace(&mid, acc);
         // word-final and after-upper-case positions, with and without a separator in the name
         // (context-sensitive case mappings such as the final sigma; ASCII fast paths)
         for name in [format!("a{c}"), format!("A{c}"), format!("_a{c}"), format!("B.a{c}-"), format!("{c}_b"), format!("{c}{c}-.x")] {
@@ -345,6 +378,29 @@ pub fn c15_sweep(tier: Tier) -> (Acc, Value) {
             match serde_json::from_value::<PackageType>(json!(name)) {
                 Ok(back) if back == *t => {},
                 other => total.violate(Violation { prop: "C15", kind: "serde-name-roundtrip".into(), case: case.clone(), detail: format!("serde does not read {:?} back: {:?}", name, other.ok()) }),
+            }
+            // every way a deserialiser may hand the string over: borrowed from the input, transient
+            // (reader, escape sequence inside the JSON text), owned
+            {
+                use serde::de::value::{BorrowedStrDeserializer, Error as DeErr, StrDeserializer, StringDeserializer};
+                use serde::Deserialize;
+                let quoted = format!("\"{name}\"");
+                let escaped = format!("\"\\u{:04x}{}\"", name.as_bytes()[0] as u32, &name[1..]);
+                let routes: Vec<(&str, Option<PackageType>)> = vec![
+                    ("serde_json::from_str", serde_json::from_str::<PackageType>(&quoted).ok()),
+                    ("serde_json::from_str (escaped first letter)", serde_json::from_str::<PackageType>(&escaped).ok()),
+                    ("serde_json::from_slice", serde_json::from_slice::<PackageType>(quoted.as_bytes()).ok()),
+                    ("serde_json::from_reader", serde_json::from_reader::<_, PackageType>(std::io::Cursor::new(quoted.as_bytes())).ok()),
+                    ("StrDeserializer", PackageType::deserialize(StrDeserializer::<DeErr>::new(name)).ok()),
+                    ("BorrowedStrDeserializer", PackageType::deserialize(BorrowedStrDeserializer::<DeErr>::new(name)).ok()),
+                    ("StringDeserializer", PackageType::deserialize(StringDeserializer::<DeErr>::new(name.to_owned())).ok()),
+                ];
+                for (what, got) in routes {
+                    total.calls += 1;
+                    if got != Some(*t) {
+                        total.violate(Violation { prop: "C15", kind: "serde-name-roundtrip".into(), case: case.clone(), detail: format!("{what} does not read {:?} back: {:?}", name, got) });
+                    }
+                }
             }
         }
         for (what, v) in &forms {
@@ -579,7 +635,8 @@ pub fn c18_sweep(tier: Tier) -> (Acc, Value) {
         Tier::Quick => 6,
         Tier::Thorough => 8,
     };
-    let alphabet = ["a", "B", "/", ":", ".", "@", "é", "v", "2"];
+    // (the escaped forms of the separators are ordinary text in a combined name: it is not a PURL string)
+    let alphabet = ["a", "B", "/", ":", ".", "@", "é", "v", "2", "%2F", "%3A", "%2f"];
     let mut total = for_all_short(&alphabet, n, |s, acc| {
         for ty in R::KNOWN_TYPES {
             c18_forward(ty, s, acc);
